@@ -192,6 +192,10 @@ pub fn run(cat: &Catalog, cfg: &Config, stats: &mut Stats, run_seed: u64) -> Vec
         let mut seen_fam = false;
         for it in &s.items {
             match it.fam {
+                None if it.entry == "Dedup" && s.writer_release != r => {
+                    check_rem = false;
+                    break;
+                }
                 None => batch.push((it.entry.clone(), format!("ok:{:?}", it.val))),
                 Some(fi) => {
                     let info = &cat.infos[fi];
@@ -316,7 +320,7 @@ pub fn run(cat: &Catalog, cfg: &Config, stats: &mut Stats, run_seed: u64) -> Vec
                 let rel = nodes[ni].release;
                 let peer = nodes[ni].peer && focus != "C13";
                 let toplevel_only = info.tags.contains(&"toplevel_only");
-                let form = if toplevel_only || embed_mix == 0 { 0 } else { sc.below(4) };
+                let form = if toplevel_only || embed_mix == 0 { 0 } else { sc.below(5) };
                 let mk = |fi: usize, wl: &mut Rng| {
                     let name = format!("{}_V{}", cat.infos[fi].name, rel);
                     let ty = Ty::Adt(name.clone());
@@ -338,6 +342,25 @@ pub fn run(cat: &Catalog, cfg: &Config, stats: &mut Stats, run_seed: u64) -> Vec
                     2 => {
                         items.push(mk(fi, &mut wl));
                         items.push(sib("Option<u8>", &mut wl));
+                    }
+                    3 => {
+                        // deduplicated strings after the record, some equal to a removed-field name of
+                        // its header (judged for same-release reads only: across releases the ids of
+                        // the two sides legitimately diverge once a chunk is skipped)
+                        let m = mk(fi, &mut wl);
+                        let names: Vec<String> = match cat.reg.get(&m.entry) {
+                            AdtDef::Record(d) => d.steps.iter().filter_map(|s| match s {
+                                Step::Removed(n) | Step::MadeTransient(n) => Some(n.clone()),
+                                _ => None,
+                            }).collect(),
+                            _ => vec![],
+                        };
+                        items.push(m);
+                        let e = cat.by_name("Dedup").unwrap();
+                        for _ in 0..3 {
+                            let v = if !names.is_empty() && wl.chance(2, 3) { Val::Str(wl.pick(&names).clone()) } else { gen.val(&e.ty, &mut wl) };
+                            items.push(Item { entry: "Dedup".into(), ty: e.ty.clone(), val: v, fam: None });
+                        }
                     }
                     _ => {
                         items.push(mk(fi, &mut wl));
